@@ -405,6 +405,54 @@ theorem server_set_limit : Agrees Extracted.SERVER_SET_LIMIT_IS_ASSIGNMENT 1 := 
 theorem conn_set_limit : Agrees Extracted.CONN_SET_LIMIT_IS_ASSIGNMENT 1 := by decide
 theorem accept_configures_limit : Agrees Extracted.ACCEPT_CONFIGURES_LIMIT 1 := by decide
 
+/-! ### The model covers the whole state of the code (assumption A-state)
+
+Every field of every type of the crate is accounted for by a field of the model (or is an OS resource / configuration
+the model takes as input). A field ADDED to one of these types — a cache, a counter, a "remembered" value: the stock of
+round eighteen to twenty (`pending_headers`, `peer_version`, `uncollected_requests`, `consecutive_parse_errors`,
+`seen_input`, `yielded_in_batch`, `longest_key`, `sent`) — is state the model does not have, whether or not a generated
+history happens to show its effect: the obligation of the properties that speak about that type breaks. -/
+
+/-- `HttpConnection`: model field ← code field -/
+def connFieldMap : List (String × String) :=
+  [("pending", "pending_request"), ("(stream: the `Recv` / `SinkStep` inputs)", "stream"), ("state", "state"),
+   ("win (= buffer[0 .. read_cursor))", "buffer"), ("win.length", "read_cursor"), ("bodyVec", "body_vec"),
+   ("toRead", "body_bytes_to_be_read"), ("parsed", "parsed_requests"), ("respQ", "response_queue"),
+   ("respBuf", "response_buffer"), ("files", "files"), ("limit", "payload_max_size")]
+
+theorem conn_fields : Agrees Extracted.fieldsHttpConnection (connFieldMap.map (·.2)) := by decide
+theorem client_fields : Agrees Extracted.fieldsClientConnection ["connection", "state", "in_flight_response_count"] := by decide
+theorem server_fields :
+    Agrees Extracted.fieldsHttpServer ["socket", "epoll", "kill_switch", "connections", "payload_max_size"] := by decide
+theorem response_fields :
+    Agrees Extracted.fieldsResponse ["status_line", "headers", "body"] ∧
+    Agrees Extracted.fieldsStatusLine ["http_version", "status_code"] ∧
+    Agrees Extracted.fieldsResponseHeaders ["content_length", "content_type", "deprecation", "server", "allow", "accept_encoding"] := by
+  decide
+theorem routes_fields : Agrees Extracted.fieldsHttpRoutes ["server_id", "prefix", "media_type", "routes"] := by decide
+theorem headers_fields :
+    Agrees Extracted.fieldsHeaders ["content_length", "expect", "chunked", "accept", "custom_entries"] := by decide
+theorem request_fields :
+    Agrees Extracted.fieldsRequest ["request_line", "headers", "body", "files"] ∧
+    Agrees Extracted.fieldsRequestLine ["method", "uri", "http_version"] ∧
+    Agrees Extracted.fieldsUri ["string"] := by decide
+
+/-- The clean restart after a `ParseError` assigns exactly the six parser fields, to the values `resetParser` gives them
+    (`win := []` is `read_cursor = 0`); together with `conn_fields` this says that EVERY field of the connection is either
+    reset here or belongs to the output side / configuration / completed requests, which C11 leaves alone. -/
+theorem reset_block :
+    Agrees Extracted.resetAfterParseError
+      [("state", "ConnectionState::WaitingForRequestLine"), ("pending_request", "None"), ("read_cursor", "0"),
+       ("body_vec", "clear"), ("body_bytes_to_be_read", "0"), ("files", "clear")] := by decide
+
+/-- … and the model's reset is that assignment -/
+theorem reset_is_model (c : Conn0) :
+    (resetParser c).state = .reqLine ∧ (resetParser c).pending = none ∧ (resetParser c).win = [] ∧
+    (resetParser c).bodyVec = [] ∧ (resetParser c).toRead = 0 ∧ (resetParser c).files = [] ∧
+    (resetParser c).parsed = c.parsed ∧ (resetParser c).respQ = c.respQ ∧ (resetParser c).respBuf = c.respBuf ∧
+    (resetParser c).limit = c.limit := by
+  simp [resetParser]
+
 /-! ### the router and `Uri::get_abs_path`, translated from router.rs / request.rs (obligations of C17 and C16) -/
 
 theorem method_to_str : Agrees Extracted.methodToStr (Method.all.map fun m => (methodName m, m.toStr)) := by decide
